@@ -25,7 +25,14 @@ def confirm(pid, outdir, wt, tag=''):
         demo = os.path.join(d, 'demo.rs')
         if not (os.path.isdir(d) and os.path.exists(patch) and os.path.exists(demo)):
             continue
-        sid = '%s-%s%s' % (pid, tag, n)
+        mpid = pid
+        if pid == 'meta':          # free-choice authors name the property in their meta.json
+            try:
+                mpid = json.load(open(os.path.join(d, 'meta.json')))['property'].strip()[:3]
+            except Exception:
+                print(n, 'no property in meta.json')
+                continue
+        sid = '%s-%s%s' % (mpid, tag, n)
         log = []
         sh('git checkout -- . && git clean -fdq tests', cwd=wt)
         rc, out = sh('git apply %s' % patch, cwd=wt)
@@ -57,7 +64,7 @@ def confirm(pid, outdir, wt, tag=''):
                 meta = json.load(open(os.path.join(d, 'meta.json')))
             except Exception:
                 pass
-            meta.update({'property': pid, 'confirmed': log, 'origin': 'independent sub-agent given only the property text and a scratch worktree'})
+            meta.update({'property': mpid, 'confirmed': log, 'origin': 'independent sub-agent given only the property text and a scratch worktree'})
             json.dump(meta, open(os.path.join(dst, 'meta.json'), 'w'), indent=1)
 
 
